@@ -237,6 +237,34 @@ def run(ctx) -> None:
              "reference is, on every path, the result of reading the referenced file in this very call")
     ctx.assume("look-around anchors with a class containing \\w . # / are accepted as strong boundaries")
 
+    # the boundary classes mean what the SUB engine reads them as: the helpers that compile the whole-reference patterns pass no flag
+    # that changes them - re.ASCII narrows \\w to [a-zA-Z0-9_], so 'é' before or after a reference counts as a delimiter and 'éA:ref'
+    # (another producer) is rewritten; IGNORECASE / VERBOSE / LOCALE change the match as well (seed C10-14)
+    BAD_FLAGS = {"A", "ASCII", "I", "IGNORECASE", "X", "VERBOSE", "L", "LOCALE"}
+    flm10 = ctx.repo.module("python/experiment/model/frontends/flowir.py")
+    n_comp = 0
+    for q10, f10 in flm10.functions.items():
+        if "." in q10:
+            continue
+        for r10 in [r for r in source.walk_own(f10) if isinstance(r, ast.Return) and isinstance(r.value, ast.Call) and call_name(r.value) == "re.compile"]:
+            c10_ = r10.value
+            if not any(isinstance(x, ast.Call) and call_name(x) == "re.escape" for x in ast.walk(c10_)) and "reference" not in f10.name:
+                continue
+            n_comp += 1
+            ctx.analysed(f10)
+            flags = list(c10_.args[1:]) + [k.value for k in c10_.keywords if k.arg == "flags"]
+            bad = [x for fl_ in flags for x in ast.walk(fl_) if isinstance(x, ast.Attribute) and x.attr in BAD_FLAGS]
+            inline = [x for x in ast.walk(c10_.args[0]) if isinstance(x, ast.Constant) and isinstance(x.value, str)
+                      and any(x.value.startswith("(?" + ch) or ("(?" + ch) in x.value for ch in "aiLx")]
+            ok10 = not bad and not inline
+            ctx.ob("C10.R1-anchored-substitution", c10_, ok10,
+                   "%s compiles its pattern without flags that change the boundary classes" % q10 if ok10 else
+                   "%s compiles the reference pattern with %s: \\w in the look-arounds then stands for ASCII letters only (or the match ignores case / "
+                   "white space), so a reference glued to a non-ASCII word character - 'caféA:ref', 'éA:ref' of another producer - is rewritten "
+                   "although it is not an occurrence of the declared reference" % (q10, short((bad or inline)[0], 30)),
+                   construct="%s: re.compile(<pattern>) without narrowing flags" % q10)
+    ctx.require(n_comp >= 2, "anchor missing: the helpers of flowir.py that compile the whole-reference patterns (found %d)" % n_comp)
+
     g = ctx.repo.module(GRAPH)
     fn = g.func("ComponentSpecification.resolveArguments")
     ctx.analysed(fn)
